@@ -170,6 +170,55 @@ fn run(ctx: &mut Ctx) {
             }
         }
     }
+    // ---------------- (a2) whole-word values: a field that is 0 / all-ones / a boundary value / equal to a sibling
+    ctx.bound("field_words", "every kind: every 32-bit body word of the first sample image set to each EDGE32 value (VBE: 0 and 0xFFFFFFFF only) and to the value of its neighbouring words; every pair of adjacent words over {0, 1, 0xFFFFFFFF}^2 (covers 64-bit fields); enumerated fields / counts / strides kept legal");
+    for kind in 0..=21u32 {
+        let img = variants(kind).into_iter().next().unwrap();
+        let words: Vec<usize> = (8..img.len().saturating_sub(3)).step_by(4).collect();
+        let word_legal = |w: usize, v: u32| -> bool {
+            let bytes = v.to_le_bytes();
+            (0..4).all(|i| bytes[i] == img[w + i] || legal(kind, &img, w + i, bytes[i])) && !(kind == bi::ACPI2 && w == 28 && v > 36)
+        };
+        let mut wcases: Vec<Vec<(usize, u32)>> = vec![];
+        for (i, &w) in words.iter().enumerate() {
+            let vals: Vec<u32> = if kind == bi::VBE { vec![0, 0xFFFF_FFFF] } else { EDGE32.to_vec() };
+            for v in vals {
+                wcases.push(vec![(w, v)]);
+            }
+            for j in [i.wrapping_sub(1), i + 1] {
+                if let Some(&w2) = words.get(j) {
+                    wcases.push(vec![(w, rd32(&img, w2))]);
+                }
+            }
+            if kind != bi::VBE {
+                if let Some(&w2) = words.get(i + 1) {
+                    for a in [0u32, 1, 0xFFFF_FFFF] {
+                        for b in [0u32, 1, 0xFFFF_FFFF] {
+                            wcases.push(vec![(w, a), (w2, b)]);
+                        }
+                    }
+                }
+            }
+        }
+        for case in wcases {
+            if !case.iter().all(|&(w, v)| word_legal(w, v)) {
+                continue;
+            }
+            let mut t = img.clone();
+            for &(w, v) in &case {
+                wr32(&mut t, w, v);
+            }
+            let filler = bi::sample(other_kind(kind), 9, 0);
+            let region = bi::region(&[filler, t, bi::end_tag()], &bi::marker_pad);
+            let describe = || J::obj().set("part", "field_words").set("kind", bi::kind_name(kind)).set("words_set", J::Arr(case.iter().map(|(w, v)| J::from(format!("@{} = {:#x}", w, v))).collect())).set("region", J::hex(&region[..region.len().min(160)]));
+            ctx.leaf(describe, |ctx| {
+                ctx.state(hash::hash_bytes(&region));
+                ctx.nontrivial();
+                let want = expected_for(&region, kind);
+                check_getter(ctx, &arena, &region, kind, want, "field_words");
+            });
+        }
+    }
     // ---------------- (b) selection
     let maxlen = if ctx.quick() { 3 } else { 4 };
     ctx.bound("selection", format!("per kind: all tag sequences of length <= {} over {{instance 1, instance 2, another kind, custom, end}} + final end tag; all 22 x 22 ordered pairs of kinds with all 22 getters", maxlen));
